@@ -29,7 +29,8 @@ def confirm(wt, deliver):
     os.makedirs(os.path.join(wt, 'tests'), exist_ok=True)
     shutil.copy(os.path.join(deliver, 'demo.rs'), os.path.join(wt, 'tests', 'demo.rs'))
     rc1, out1 = sh('cargo test --offline --test demo 2>&1 | tail -30', cwd=wt, env=env)
-    facts['demo_fails_with_change'] = 'test result: FAILED' in out1 or 'panicked' in out1
+    facts['demo_fails_with_change'] = ('test result: FAILED' in out1 or 'panicked' in out1 or 'error: test failed' in out1
+                                       or 'signal:' in out1 or 'SIGABRT' in out1 or 'SIGSEGV' in out1)
     facts['demo_with_change_tail'] = out1[-600:]
     sh('git checkout -- src', cwd=wt)
     rc2, out2 = sh('cargo test --offline --test demo 2>&1 | tail -30', cwd=wt, env=env)
@@ -65,7 +66,25 @@ def run_checks(patch, props=None):
         sh(['git', '-C', '/repo', 'checkout', '--', '.'])
 
 
+def recheck(ident):
+    dest = os.path.join(VERIF, 'seeded', ident)
+    meta = json.load(open(os.path.join(dest, 'meta.json')))
+    res = run_checks(os.path.join(dest, 'patch.diff'))
+    prop = meta['breaks_property']
+    print('%s: alarms=%s (without input: %s) inconclusive=%s wall=%ss  own=%s' % (ident, res['alarms'], res['alarms_without_input'], res['inconclusive'], res['wall_s'], prop in res['alarms']))
+    meta['checks'] = {'alarms': res['alarms'], 'alarms_without_failing_input': res['alarms_without_input'], 'inconclusive': res['inconclusive']}
+    meta['detected_by_own_property_check'] = prop in res['alarms']
+    json.dump(meta, open(os.path.join(dest, 'meta.json'), 'w'), indent=1)
+    open(os.path.join(dest, 'check_output.txt'), 'w').write(res.get('output', '')[-20000:])
+    return 0
+
+
 def main():
+    if sys.argv[1] == '--recheck':
+        rc = 0
+        for ident in sys.argv[2:]:
+            rc |= recheck(ident)
+        return rc
     ident, prop, wt = sys.argv[1], sys.argv[2], sys.argv[3]
     deliver = os.path.join(wt, '_deliver')
     dest = os.path.join(VERIF, 'seeded', ident)
